@@ -145,7 +145,7 @@ Proof.
   { intros x m P H. destruct (put_inv _ _ _ _ _ P) as (c & w & Em & Ev). unfold SentOk. rewrite Ev.
     apply Forall_set_at'; [exact S | eapply H; eauto]. }
   assert (SAME : Ok (b, st') = Ok (b, st') -> True) by auto.
-  destruct o; cbn [step] in E; unfold skip in E; break_hyp E;
+  destruct o; cbn [step] in E; unfold rem_at, skip in E; break_hyp E;
     try (inversion E; subst; exact S);
     try (eapply PUT; [exact E|]; let cc := fresh "cc" in let ww := fresh "ww" in intros cc ww Em;
          try (apply ret_inv in Em; inversion Em; subst; exact Logic.I);
